@@ -387,6 +387,8 @@ class TrAcc(TrProc):
             return [], "([] : Str)"
         if isinstance(e, ast.Attribute) and isinstance(e.value, ast.Name) and e.value.id == "self" and e.attr in getattr(self, "bound", {}):
             return [], self.bound[e.attr]
+        if isinstance(e, ast.Name) and ("param:" + e.id) in getattr(self, "bound", {}):
+            return [], self.bound["param:" + e.id]
         if isinstance(e, ast.IfExp):
             t, neg = e.test, False
             if isinstance(t, ast.UnaryOp) and isinstance(t.op, ast.Not):
@@ -511,6 +513,31 @@ class TrAcc(TrProc):
             s, rest = body[0], body[1:]
             if isinstance(s, ast.Expr) and isinstance(s.value, ast.Constant):
                 return self.stmts(rest, ind, final)
+            if isinstance(s, ast.If):
+                t, neg = s.test, False
+                if isinstance(t, ast.UnaryOp) and isinstance(t.op, ast.Not):
+                    t, neg = t.operand, True
+                # `if pd.isna(self.F)` / `if pd.isna(param)` on an optional field or parameter: a `match`; in the branch where the
+                # value is present, `self.F` / `param` is that value
+                scrut = var = key = None
+                fld = self.isna_field(t)
+                if fld is not None and fld in self.self_fields:
+                    scrut, var, key = "self.%s" % self.self_fields[fld], fld + "_", fld
+                elif isinstance(t, ast.Call) and isinstance(t.func, ast.Attribute) and t.func.attr == "isna" and isinstance(t.func.value, ast.Name) \
+                        and t.func.value.id == "pd" and len(t.args) == 1 and isinstance(t.args[0], ast.Name) and t.args[0].id in getattr(self, "opt_params", ()):
+                    scrut, var, key = t.args[0].id, t.args[0].id + "_", "param:" + t.args[0].id
+                if scrut is not None:
+                    vs = self.mutated([s])
+                    tup = vs[0] if len(vs) == 1 else "(" + ", ".join(vs) + ")"
+                    absent, present = (s.orelse, s.body) if neg else (s.body, s.orelse)
+                    a = self.stmts(absent, ind + 2, ".ok %s" % tup)
+                    saved = dict(getattr(self, "bound", {}))
+                    self.bound = dict(saved)
+                    self.bound[key] = var
+                    pr = self.stmts(present, ind + 2, ".ok %s" % tup)
+                    self.bound = saved
+                    txt = "%sbindE (match %s with\n%s  | none =>\n%s%s  | some %s =>\n%s%s  ) fun %s =>\n" % (pad, scrut, pad, a, pad, var, pr, pad, tup)
+                    return txt + self.stmts(rest, ind, final)
             if isinstance(s, ast.AugAssign) and isinstance(s.op, ast.Add) and isinstance(s.target, ast.Name):
                 b, t = self.expr(s.value)
                 return self.binds(b, "%slet %s := %s ++ %s\n" % (pad, s.target.id, s.target.id, t) + self.stmts(rest, ind, final), ind)
@@ -653,6 +680,15 @@ def main():
             out.append("/-- `UALocalizedText.xml_encode` -/")
             out.append("def loctext_xml_encode (self : LocText) (%s : Bool) : Except PyErr Str :=" % f.args.args[1].arg)
             out.append(acc({"text": "text", "locale": "locale"}).stmts(f.body, 1, ".error .typeError"))
+            f = find(dt, "UALocalizedText.json_encode")
+            t = acc({"text": "text", "locale": "locale"})
+            a = [x.arg for x in f.args.args]
+            if len(a) != 2 or len(f.args.defaults) != 1 or not (isinstance(f.args.defaults[0], ast.Constant) and f.args.defaults[0].value is None):
+                raise Unsupported("signature of UALocalizedText.json_encode")
+            t.opt_params = (a[1],)
+            out.append("/-- `UALocalizedText.json_encode`; the optional `%s` (default `None`) is an `Option` -/" % a[1])
+            out.append("def loctext_json_encode (self : LocText) (%s : Option Str) : Except PyErr Str :=" % a[1])
+            out.append(t.stmts(f.body, 1, ".error .typeError"))
     except Unsupported as u:
         print("UNSUPPORTED: %s" % u, file=sys.stderr)
         sys.exit(3)
